@@ -7,6 +7,6 @@ namespace Pya.C17
 def liveRoutes : List String := ["_str_format_impl<-impl@str.format", "_visit_binop_internal<-name_check_visitor:NameCheckVisitor._visit_single_compare", "_visit_binop_internal<-name_check_visitor:NameCheckVisitor._visit_single_compare", "_visit_binop_internal<-name_check_visitor:NameCheckVisitor.visit_AugAssign", "_visit_binop_internal<-name_check_visitor:NameCheckVisitor.visit_BinOp", "check_string_format<-name_check_visitor:NameCheckVisitor._visit_binop_internal", "from_bytes_pattern<-format_strings:check_string_format", "from_pattern<-format_strings:check_string_format", "parse_format_string<-implementation:_str_format_impl"]
 
 /-- the conditions under which `check_string_format` is reached -/
-def liveRouteGuards : List String := ["name_check_visitor:NameCheckVisitor._visit_binop_internal: isinstance(source_node, ast.BinOp) and isinstance(op, ast.Mod) and isinstance(left, KnownValue) and isinstance(left.val, (bytes, str))"]
+def liveRouteGuards : List String := ["name_check_visitor:NameCheckVisitor._visit_binop_internal: isinstance(op, ast.Mod) and isinstance(left, KnownValue) and isinstance(left.val, (bytes, str))"]
 
 end Pya.C17
